@@ -1,5 +1,6 @@
 import BstreamVerif.Drv.Range
 import BstreamVerif.Drv.Cursor
+import BstreamVerif.Drv.Gates
 /-
 bsmodel: reads the harness file (op / impl lines grouped in cases) on stdin, prints for every `op`
 line the model's answer (`model …`) and the monitor verdict on the implementation's answer.
@@ -16,8 +17,9 @@ def statelessOp (suite : String) (ws impl : List String) : Option (String × Str
   | _ => none
 
 /-- stateful suites: header, body lines (each already split) → output lines -/
-def statefulCase (suite : String) (_hdr : List String) (_body : List (List String)) : Option (List String) :=
+def statefulCase (suite : String) (hdr : List String) (body : List (List String)) : Option (List String) :=
   match suite with
+  | "gates" | "gator" | "minfilter" | "tripper" => some (GatesDrv.handle hdr body)
   | _ => none
 
 def processCase (out : IO.FS.Stream) (hdr : List String) (body : Array (List String)) : IO Unit := do
